@@ -2,7 +2,9 @@
 (* C07.  Which signature algorithm a verifier accepts.                             *)
 (*                                                                                 *)
 (*  side "client": Transport._verify_key - the host-key signature over the         *)
-(*                 exchange hash; `decl` is the NEGOTIATED host-key algorithm       *)
+(*                 exchange hash of ANY key exchange (the initial one or a          *)
+(*                 re-exchange); `decl` is the host-key algorithm NEGOTIATED        *)
+(*                 for that exchange                                                *)
 (*  side "server": AuthHandler._parse_userauth_request, publickey branch - the      *)
 (*                 signature over the session blob; `decl` is the algorithm NAMED   *)
 (*                 in the request                                                   *)
@@ -30,8 +32,9 @@ CONSTANTS Fix,        \* FALSE = pinned code, TRUE = repaired
           Sides,      \* subset of {"client", "server"}
           Families,   \* subset of {"rsa", "ecdsa", "ed25519"}
           EnabledChoice,   \* "all" = every subset of the family's names, "few" = full set and full minus one name
+          ExchChoice,      \* "initial" = the first key exchange only, "all" = also re-exchanges started by either peer
           ProbeChoice,     \* "none" = signed requests only, "all" = also every probe-then-sign sequence (server)
-          Mut         \* "none" | "no_enabled_check" | "probe_caches_key" (sensitivity)
+          Mut         \* "none" | "no_enabled_check" | "probe_caches_key" | "algcheck_first_exchange_only" (sensitivity)
 
 RSA   == {"ssh-rsa", "rsa-sha2-256", "rsa-sha2-512"}
 ECDSA == {"ecdsa-sha2-nistp256", "ecdsa-sha2-nistp384", "ecdsa-sha2-nistp521"}
@@ -46,15 +49,18 @@ EnabledSets(f) == IF EnabledChoice = "all" THEN SUBSET Names(f)
                   ELSE {Names(f)} \cup {Names(f) \ {x} : x \in Names(f)}
 
 VARIABLES side, fam, decl, cert, sign, blob, enabled,    \* the case (constant along a behaviour)
+          exch,     \* client side: which key exchange carries the signature: "initial" | "rekey_client" | "rekey_server"
+                    \* (a re-exchange follows an honest initial one; the same algorithm is negotiated again)
           probe,    \* "none", or the algorithm named by the unsigned probe sent first (server side)
           phase     \* "start" | "probed" | "declared_ok" | "key_loaded" | "accepted" | "rejected"
-vars == <<side, fam, decl, cert, sign, blob, enabled, probe, phase>>
+vars == <<side, fam, decl, cert, sign, blob, enabled, probe, exch, phase>>
 
 Init == /\ side \in Sides /\ fam \in Families
         /\ decl \in Names(fam) /\ cert \in CertForms(fam)
         /\ sign \in Names(fam)
         /\ blob \in Names(fam) \cup {Foreign(fam)}
         /\ enabled \in EnabledSets(fam)
+        /\ exch \in {"initial"} \cup (IF side = "client" /\ ExchChoice = "all" THEN {"rekey_client", "rekey_server"} ELSE {})
         /\ probe \in {"none"} \cup (IF side = "server" /\ ProbeChoice = "all" THEN Names(fam) ELSE {})
         /\ phase = "start"
 
@@ -64,7 +70,7 @@ SessionAlive(pr, en) == pr = "none" \/ pr \in en
 Probe ==
     /\ phase = "start" /\ probe # "none"
     /\ phase' = IF SessionAlive(probe, enabled) THEN "probed" ELSE "rejected"
-    /\ UNCHANGED <<side, fam, decl, cert, sign, blob, enabled, probe>>
+    /\ UNCHANGED <<side, fam, decl, cert, sign, blob, enabled, probe, exch>>
 
 (* client: the algorithm is negotiated from the client's own enabled list (C05);                       *)
 (* server: _generate_key_from_request refuses an algorithm that is not in preferred_pubkeys            *)
@@ -75,22 +81,25 @@ CheckDeclared ==
                    \/ Mut = "no_enabled_check"
                    \/ (Mut = "probe_caches_key" /\ phase = "probed")
                 THEN "declared_ok" ELSE "rejected"
-    /\ UNCHANGED <<side, fam, decl, cert, sign, blob, enabled, probe>>
+    /\ UNCHANGED <<side, fam, decl, cert, sign, blob, enabled, probe, exch>>
 
 (* _key_info[decl](Message(blob)): the key class of decl's family parses the presented key; the ECDSA   *)
 (* class accepts every curve, whatever curve decl names                                                *)
 LoadKey ==
     /\ phase = "declared_ok"
     /\ phase' = IF Family(sign) = Family(decl) THEN "key_loaded" ELSE "rejected"
-    /\ UNCHANGED <<side, fam, decl, cert, sign, blob, enabled, probe>>
+    /\ UNCHANGED <<side, fam, decl, cert, sign, blob, enabled, probe, exch>>
 
 (* key.verify_ssh_sig(data, sig): RSA picks the hash named by the blob, ECDSA / Ed25519 compare the blob  *)
 (* with the key's own name; a genuine signature made with `sign` verifies exactly when that is `sign`    *)
 KeyAccepts == blob = sign
 VerifySig ==
     /\ phase = "key_loaded"
-    /\ phase' = IF (Fix => blob = decl) /\ KeyAccepts THEN "accepted" ELSE "rejected"
-    /\ UNCHANGED <<side, fam, decl, cert, sign, blob, enabled, probe>>
+    \* seeded error "algcheck_first_exchange_only": the comparison with the negotiated algorithm sits in the
+    \* first-exchange arm of _verify_key
+    /\ phase' = IF (Fix /\ ~(Mut = "algcheck_first_exchange_only" /\ exch # "initial") => blob = decl) /\ KeyAccepts
+                THEN "accepted" ELSE "rejected"
+    /\ UNCHANGED <<side, fam, decl, cert, sign, blob, enabled, probe, exch>>
 
 Next == Probe \/ CheckDeclared \/ LoadKey \/ VerifySig
 Spec == Init /\ [][Next]_vars
@@ -112,5 +121,5 @@ Exact        == phase = "accepted" => MayAccept(decl, sign, blob, enabled)
 Complete     == phase = "rejected" => ~MayAccept(decl, sign, blob, enabled) \/ ~SessionAlive(probe, enabled)
 
 Final == phase \in {"accepted", "rejected"}
-Emit  == Final => PrintT(<<"CASE", side, fam, decl, cert, sign, blob, enabled, phase, probe>>)
+Emit  == Final => PrintT(<<"CASE", side, fam, decl, cert, sign, blob, enabled, phase, probe, exch>>)
 =============================================================================
